@@ -404,17 +404,25 @@ def upvar_names(cbody):
 # ---------------------------------------------------------------------------------------------------------------
 # field effects (A5)
 
+FOREIGN_PREFIXES = ("core::", "alloc::", "std::", "bevy_", "bevy::", "hashbrown::", "smallvec::", "crossbeam", "ahash::", "allocator_api2::")
+
+
+def is_crate_adt(adt):
+    return bool(adt) and not adt.startswith(FOREIGN_PREFIXES)
+
+
 def field_of(place):
-    """(adt, field name) of the *last* named field projection in a place, else None"""
+    """(adt, field name) of the *last* named field projection of a crate ADT in a place, else None
+    (payload projections of Option / Result / tuples of foreign types are looked through)"""
     last = None
     for e in place["p"]:
-        if isinstance(e, dict) and "f" in e and e.get("adt"):
+        if isinstance(e, dict) and "f" in e and is_crate_adt(e.get("adt")):
             last = (e["adt"], e.get("name"))
     return last
 
 
 def fields_in(place):
-    return [(e.get("adt"), e.get("name")) for e in place["p"] if isinstance(e, dict) and "f" in e and e.get("adt")]
+    return [(e.get("adt"), e.get("name")) for e in place["p"] if isinstance(e, dict) and "f" in e and is_crate_adt(e.get("adt"))]
 
 
 def field_borrows(body, adt_suffix, field):
